@@ -39,7 +39,7 @@ Section MP.
     | KFile => Some MFile
     | KEnum _ _ _ => match v with PEnum _ j => option_map MText (str_of_json j) | _ => None end
     | KLitEnum _ _ => option_map MText (str_of v)
-    | KConst _ => None                                       (* const_property.py.jinja defines no transform_multipart *)
+    | KConst _ => option_map MText (str_of v)                (* since repair 6f2d009: the text of the value, like int / str (before: no macro, generation crashed) *)
     (* _transform(..., multipart=True, "to_dict"): items through the inner JSON transform, then json.dumps *)
     | KList _ | KModel _ => match enc T fuel k v with Some j => Some (MJson j) | None => None end
     | KUnion _ => None                                       (* unions are flat: a member is never a union *)
